@@ -3,7 +3,7 @@
 # Confirms in a fresh scratch worktree: suite passes with the patch, demo fails with it and passes without it.
 # Result is written to <seed dir>/confirm.json ; scratch worktree removed afterwards.
 set -u
-src="$1"; id="$2"
+src="$1"; id="$2"; patch="${3:-$1/patch.diff}"
 wt=/tmp/wt/confirm_$id
 git -C /repo worktree remove --force $wt 2>/dev/null
 git -C /repo worktree add -q --detach $wt HEAD || exit 2
@@ -12,7 +12,7 @@ demo=$(ls $src | grep -E '^demo' | head -1)
 cp $src/$demo $wt/$demo
 if [[ "$demo" == *test* ]]; then democmd="/venv/bin/python -m pytest -q -p no:cacheprovider $demo"; else democmd="/venv/bin/python $demo"; fi
 PYTHONPATH=$wt timeout 1800 $democmd > demo_clean.log 2>&1; rc_clean=$?
-git apply $src/patch.diff || { echo "{\"id\": \"$id\", \"applies\": false}" > $src/confirm.json; cd /; git -C /repo worktree remove --force $wt; exit 1; }
+git apply $patch || { echo "{\"id\": \"$id\", \"applies\": false}" > $src/confirm.json; cd /; git -C /repo worktree remove --force $wt; exit 1; }
 /venv/bin/python -m compileall -q avocado_i2n > /dev/null 2>&1; rc_compile=$?
 PYTHONPATH=$wt timeout 1800 $democmd > demo_patched.log 2>&1; rc_patched=$?
 PYTHONPATH=$wt timeout 3600 /venv/bin/python -m pytest -q -p no:cacheprovider --timeout=1800 -n 8 selftests/isolation > suite.log 2>&1
